@@ -1,5 +1,6 @@
 import PydlVerif.Model.JsonUtil
 import PydlVerif.Model.YannyHist
+import PydlVerif.Model.YannyHistDom
 import PydlVerif.Driver.C01
 open Lean
 namespace PydlVerif.Driver.C03
@@ -12,6 +13,10 @@ open PydlVerif PydlVerif.Yanny PydlVerif.Driver.C01
            {"k":"append","stamp":..,"data":[[key,{"t":text}|{"c":[[col,[cell,..]],..]}],..]}
            {"k":"nondict"} {"k":"reread"} {"k":"unlink"} {"k":"rebind","p":path}
       answer: {"init":state,"steps":[{"out":..,"state":..,"hyp":..},..]}
+      optional "doc": the document (C01 `jdoc`) the start file was written from; the answer then has
+      "dom": the hypotheses of `history_content` evaluated on this history (`docOK`, `rawOK`, the
+      start file is `renderFile doc`, `histOK`; "bad": index of the first op that leaves the domain)
+      and its conclusion ("final": the view after the last op is `viewOfDoc` of `histDoc`)
   {"op":"parse","raw":b,"text":..}  → view
 -/
 
@@ -182,6 +187,27 @@ def traceJ (paths : List Str) (s : State Str) : List (Op Str) → List Json
     let r := step ioHist s op
     Json.mkObj [("out", outJ r.2), ("state", stateJ paths r.1), ("hyp", hypJ s op r)] :: traceJ paths r.1 ops
 
+/-- hypotheses and conclusion of `history_content` on one generated history -/
+def domJ (raw : Bool) (fs : Str → Option Str) (start : Str) (d : Doc Str) (ops : List (Op Str))
+    (sN : State Str) : Json :=
+  let ex : Str → Bool := fun q => (fs q).isSome
+  let tok := match renderFile ioHist d, fs start with
+    | .ok t, some t0 => t == t0
+    | _, _ => false
+  let hd := histDoc ioHist raw ex start d ops
+  -- the first op that leaves the domain (searched only when the history is outside)
+  let bad := if hd.isSome then none else
+    (List.range (ops.length + 1)).find? (fun k => (histDoc ioHist raw ex start d (ops.take k)).isNone)
+  Json.mkObj [
+    ("docok", Json.bool (docOK ioHist d)), ("rawok", Json.bool (rawOK raw d)), ("text", Json.bool tok),
+    ("hist", Json.bool hd.isSome),
+    ("bad", match bad with
+      | some k => J.ofNat (k - 1)
+      | none => Json.null),
+    ("final", match hd with
+      | some D => Json.bool (viewEq sN.obj.view (.ok (viewOfDoc raw D)))
+      | none => Json.null)]
+
 def handle (j : Json) : Except String Json := do
   let op ← J.fStr j "op"
   match op with
@@ -196,7 +222,12 @@ def handle (j : Json) : Except String Json := do
     let ops ← J.list jop (← J.fld j "ops")
     let fs : Str → Option Str := fun p => lookupKey p files
     let s0 : State Str := ⟨fs, load ioHist fs start raw⟩
-    pure (Json.mkObj [("init", stateJ paths s0), ("steps", Json.arr (traceJ paths s0 ops).toArray)])
+    let base := [("init", stateJ paths s0), ("steps", Json.arr (traceJ paths s0 ops).toArray)]
+    match j.getObjVal? "doc" with
+    | .ok dj =>
+      let d ← jdoc dj
+      pure (Json.mkObj (base ++ [("dom", domJ raw fs start d ops (run ioHist s0 ops))]))
+    | .error _ => pure (Json.mkObj base)
   | "parse" =>
     let raw ← J.fBool j "raw"
     let t ← js (← J.fld j "text")
